@@ -37,13 +37,16 @@ type Client struct {
 var ErrHarness = errors.New("HARNESS-INCONCLUSIVE")
 
 // Start launches the server binary.
-func Start(path string) (*Client, error) {
+func Start(path string) (*Client, error) { return StartEnv(path, nil) }
+
+// StartEnv launches the server binary with extra environment variables.
+func StartEnv(path string, extraEnv []string) (*Client, error) {
 	if path == "" {
 		return nil, fmt.Errorf("%w: op-server path not set", ErrHarness)
 	}
 	cmd := exec.Command(path)
 	covdir, _ := os.MkdirTemp(os.Getenv("VERIF_WORK"), "gocover-")
-	cmd.Env = append(os.Environ(), "GOCOVERDIR="+covdir)
+	cmd.Env = append(append(os.Environ(), "GOCOVERDIR="+covdir), extraEnv...)
 	in, err := cmd.StdinPipe()
 	if err != nil {
 		return nil, err
